@@ -2,23 +2,33 @@
 
 MK = "testtools.monkey:"
 P_ = MK + "MonkeyPatcher."
+NOSUCH = "MonkeyPatcher._NO_SUCH_ATTRIBUTE"
 
 
 def register(R):
     R.fields_of("MonkeyPatcher", _patches_to_apply="list[(any,str,any)]", _originals="list[(any,str,any)]")
-    NOSUCH = "MonkeyPatcher._NO_SUCH_ATTRIBUTE"
-    # undo(A, L, k): the attribute tables after undoing the LAST k saved entries of L, last first
-    R.function("undo", ["darr", "seq", "int"], "darr")
-    R.axiom("undo_0", {"A": "darr", "L": "seq"}, "undo(A, L, 0) == A")
-    R.axiom("undo_step", {"A": "darr", "L": "seq", "k": "int"},
-            "implies(0 < k and k <= len(L), undo(A, L, k) == attr_set(undo(A, L, k - 1), elems(L[len(L) - k])[0], elems(L[len(L) - k])[1], "
-            "ite(elems(L[len(L) - k])[2] is %s, absent(), elems(L[len(L) - k])[2])))" % NOSUCH)
+    # undo_all(A, L): the attribute tables after undoing every saved entry of L, LAST SAVED FIRST
+    R.function("undo_all", ["darr", "seq"], "darr")
+    R.define("undo_one", ["A", "e"], "attr_set(A, elems(e)[0], elems(e)[1], ite(elems(e)[2] is %s, absent(), elems(e)[2]))" % NOSUCH)
+    R.axiom("undo_all_nil", {"A": "darr", "L": "seq"}, "implies(len(L) == 0, undo_all(A, L) == A)")
+    R.axiom("undo_all_step", {"A": "darr", "L": "seq"},
+            "implies(len(L) > 0, undo_all(A, L) == undo_all(undo_one(A, last(L)), butlast(L)))")
+    R.axiom("undo_all_snoc", {"A": "darr", "L": "seq", "o": "val", "n": "val", "v": "val"},
+            "undo_all(A, concat(L, [(o, n, v)])) == undo_all(attr_set(A, o, n, ite(v is %s, absent(), v)), L)" % NOSUCH)
     R.contract(P_ + "restore", props=["C02"], context={"L0": "listof(self._originals)", "A0": "ATTRS()"},
                modifies=["list(self._originals)", "$attrs"],
-               # a saved attribute that is no longer there when a NO_SUCH entry is undone raises AttributeError (user interference)
+               # undoing a NO_SUCH entry whose attribute somebody already removed raises AttributeError (user interference)
                exsures=["True"],
-               ensures=["len(listof(self._originals)) == 0", "ATTRS() == undo(A0, L0, len(L0))"],
+               ensures=["len(listof(self._originals)) == 0", "ATTRS() == undo_all(A0, L0)"],
                loops={0: dict(invariant=["self._originals is old(self._originals)",
-                                         "len(listof(self._originals)) <= len(L0)",
-                                         "prefix_of(listof(self._originals), L0)",
-                                         "ATTRS() == undo(A0, L0, len(L0) - len(listof(self._originals)))"])})
+                                         "undo_all(ATTRS(), listof(self._originals)) == undo_all(A0, L0)"])})
+    # patch(obj, attribute, value) -- what TestCase.patch registers the undo of: the attribute now has the value, and undoing the
+    # one saved entry gives back exactly the attribute tables from before (the old value, or absence)
+    R.inline_fn(P_ + "__init__", P_ + "add_patch", P_ + "patch")
+    R.contract(MK + "patch", props=["C02"], params={"obj": "any", "attribute": "str", "value": "any"}, context={"A0": "ATTRS()"},
+               requires=["is_ref(obj)", "value is not %s" % NOSUCH, "attr_get(ATTRS(), obj, attribute) is not %s" % NOSUCH],
+               modifies=["$attrs"], returns="any",
+               ensures=["ATTRS() == attr_set(A0, obj, attribute, value)",
+                        "exists(lambda rp: not allocated(rp) and typeof_is(rp, MonkeyPatcher) and "
+                        "len(listof(astype(rp, 'MonkeyPatcher')._originals)) == 1 and "
+                        "undo_all(ATTRS(), listof(astype(rp, 'MonkeyPatcher')._originals)) == A0)"])
